@@ -2,11 +2,17 @@
 //! All parameters come from environment variables: the code under test
 //! (`Config::new`) parses the *process* argv with clap, so argv stays empty.
 
+mod c15;
 mod env_sim;
 mod gen;
 mod hashseed;
+mod hist;
 mod loader_sim;
+mod lsp_min;
+mod lsp_server;
+mod lsp_sim;
 mod pipeline;
+mod position;
 mod prng;
 mod report;
 
@@ -25,6 +31,7 @@ fn run_one(prop: &str, seed: u64, run: u64) -> Report {
     match prop {
         "C10" => loader_sim::run(seed, run),
         "C06" => env_sim::run(seed, run),
+        "C15" => c15::run(seed, run),
         _ => {
             eprintln!("oalsim: unknown property {prop}");
             std::process::exit(2)
@@ -36,6 +43,7 @@ fn replay_one(prop: &str, doc: &Value) -> Result<Option<Found>, String> {
     match prop {
         "C10" => loader_sim::replay(doc),
         "C06" => env_sim::replay(doc),
+        "C15" => c15::replay(doc),
         _ => Err(format!("unknown property {prop}")),
     }
 }
